@@ -704,7 +704,9 @@ func (m *Model) ApplyOp(op *Op) MResult {
 		}
 		var es []ent
 		for _, e := range op.Entries {
-			if e.Who < 0 {
+			if e.Who == -2 && e.RawAddr != "" {
+				// an outsider: a well-formed address that belongs to no actor of the run
+			} else if e.Who < 0 {
 				return rej("invalid address")
 			}
 			c, ok := new(big.Int).SetString(e.Max, 10)
@@ -714,7 +716,11 @@ func (m *Model) ApplyOp(op *Op) MResult {
 			if c.Cmp(a.SellAmt) > 0 {
 				return rej("cap above the offered amount")
 			}
-			es = append(es, ent{m.actor(e.Who), c})
+			if e.Who == -2 {
+				es = append(es, ent{e.RawAddr, c})
+			} else {
+				es = append(es, ent{m.actor(e.Who), c})
+			}
 		}
 		for _, e := range es {
 			a.Allowed[e.addr] = e.cap
